@@ -177,8 +177,8 @@ fn check(root: &std::path::Path, c: &Case, obs: &mut Obs) {
     match run_tool(root, "dicom-toimage", &[out_dcm.as_os_str(), "--unwrap".as_ref(), "-o".as_ref(), raw_out.as_os_str()], dir.path()) {
         Ok((0, _)) => match std::fs::read(&raw_out) {
             Ok(b) => {
-                let got = if b.len() == want.len() + 1 && want.len() % 2 == 1 { &b[..want.len()] } else { &b[..] };
-                if got != &want[..] {
+                // exactly the frame: the even-length padding of the stored element is not pixel data
+                if b != want {
                     obs.fail(format!("C35:unwrapped pixel data differs from the image:{label}"), format!("{desc}: {} bytes vs {}", b.len(), want.len()));
                 }
             }
